@@ -23,6 +23,10 @@ and `Proofs/Lat2DRankSubset.lean`: the matrices that `stabilizer_matrix`, `logic
 of the generic code model (`Model/Code.lean`, C02) assemble from this lattice model form a valid
 `[[8·Lx·Ly, 4]]` stabilizer code (`ValidCodeL`: all four clauses of C01, rank included) for EVERY
 size `Lx, Ly ≥ 1`.
+
+The family `sel` is defined in the Mathlib-free model file, printed by the driver op `rankfamily` and evaluated
+on the IMPLEMENTATION's parity-check matrix on every run (stream `lat-Color488Code-rank-family`: members
+`n − k`, all distinct stabilizer locations, GF(2) rank `n − k`).
 -/
 import PanqecVerif.Proofs.Lat2DRankSubset
 import PanqecVerif.Proofs.LatColor488CodeRank2
